@@ -333,7 +333,7 @@ PDF = 'src/common/poisson_disk.rs'
 SAF = 'src/geom3/mesh/sampling.rs'
 M('C15', 'kd-within-unsquared', KDF, ".within::<SquaredEuclidean>(&point.coords.into(), radius * radius);", ".within::<SquaredEuclidean>(&point.coords.into(), radius);", 'KdTree::within')
 M('C15', 'kd-nearest-no-sqrt', KDF, "            .nearest_n::<SquaredEuclidean>(&point.coords.into(), count);\n        result\n            .iter()\n            .map(|r| (r.item, r.distance.sqrt()))", "            .nearest_n::<SquaredEuclidean>(&point.coords.into(), count);\n        result\n            .iter()\n            .map(|r| (r.item, r.distance))", 'KdTree::nearest:unpack')
-M('C15', 'partial-within-no-remap', KDF, "        let result = self.tree.within(point, radius);\n        result\n            .iter()\n            .map(|(i, d)| (self.index_map[*i], *d))", "        let result = self.tree.within(point, radius);\n        result\n            .iter()\n            .map(|(i, d)| (*i, *d))", 'PartialKdTree::within:remap')
+M('C15', 'partial-within-no-remap', KDF, "        let result = self.tree.within(point, radius);\n        result\n            .iter()\n            .map(|(i, d)| (self.index_map[*i], *d))", "        let result = self.tree.within(point, radius);\n        result\n            .iter()\n            .map(|(i, d)| (*i, *d))", 'PartialKdTree::within')
 M('C15', 'partial-nearest-one-no-remap', KDF, "        (self.index_map[i], d)", "        (i, d)", 'PartialKdTree::nearest_one')
 M('C15', 'poisson-push-inner-index', PDF, "        results.push(i);", "        results.push(m);", 'sample_poisson_disk:keep')
 M('C15', 'poisson-mask-ignored', PDF, "        if !mask[m] {\n            continue;\n        }\n", "", 'sample_poisson_disk:keep')
